@@ -6,12 +6,10 @@ package main
 // Set, Get; every dependency is an oracle (json.Marshal / Unmarshal are
 // instantiated per argument type; Unmarshal writes through v).
 //
-// Get has NilIsEmpty: crl.go:104 `content.DeltaCRL != nil` is read as
-// `len(content.DeltaCRL) != 0` (a slice is a list, nil = empty). The real code
-// tells them apart ("deltaCRL":"" decodes to an empty non-nil slice, which Get
-// hands to ParseRevocationList -> error); the theorem C15_gen_Get_equiv says
-// nothing for that decoder answer (hypothesis unmarshal_agrees), the harness
-// case "delta:empty-string" covers it.
+// crl.go:104 `content.DeltaCRL != nil`: the field keeps its nil-ness
+// (NilableFields: option (list Z); "deltaCRL":"" decodes to Some [], which Get
+// hands to the parser, nil = no delta), and so does RevocationList.Raw, which
+// Set copies into the content.
 func init() {
 	const crl = ".../verifier/crl"
 	Register("C15", []Target{
@@ -28,6 +26,8 @@ func init() {
 		{Pkg: ".../internal/file", Func: "WriteFile", Oracle: true},
 		{Pkg: crl, Func: "(*FileCache).fileName"},
 		{Pkg: crl, Func: "(*FileCache).Set"},
-		{Pkg: crl, Func: "(*FileCache).Get", NilIsEmpty: true},
+		{Pkg: crl, Type: "fileCacheContent", NilableFields: []string{"DeltaCRL"}},
+		{Pkg: "crypto/x509", Type: "RevocationList", NilableFields: []string{"Raw"}},
+		{Pkg: crl, Func: "(*FileCache).Get"},
 	})
 }
